@@ -333,9 +333,9 @@ class FakeListener:
     def connect(self, capacity: int | None = None, rpol: ChunkPolicy | None = None, wpol: ChunkPolicy | None = None,
                 tag: str = "") -> FakeSocket:
         """Client side: returns the client socket; the server end is queued."""
+        self.s.op(f"{self.name}.connect")  # the scheduling point comes BEFORE the closed test: the kernel's connect is atomic
         if self.closed:
             raise ConnectionRefusedError(111, "Connection refused (simulated)")
-        self.s.op(f"{self.name}.connect")
         n = self._next_fd
         self._next_fd += 1
         c2s = ByteChannel(self.s, f"c2s{tag or n}", capacity=capacity, rpol=rpol, wpol=wpol)
